@@ -996,7 +996,7 @@ func (e *Env) call(x *ECall) Val {
 		if !ok {
 			e.fail("lastret() needs a string literal")
 		}
-		key := "lastret " + normAnchor(st.Val)
+		key := lastretKey(st.Val)
 		if len(x.Args) == 2 {
 			// lastret("callee", i): the i-th result
 			iv := e.tr(x.Args[1])
